@@ -734,6 +734,10 @@ fn stress_case(env: &mut Env, srt: &tokio::runtime::Runtime, rng: &mut Rng, idx:
             }
             tokio::time::sleep(Duration::from_millis(1)).await;
         }
+        // the supervisor hears of the exit BEFORE the final `set_status(Stopped)` (cleanup order): when every
+        // waiter of the case timed out early nobody has waited for the exit itself yet, so the final status
+        // below is read only after a (bounded, event-driven) wait
+        let _ = tokio::time::timeout(Duration::from_secs(10), cell.wait(None)).await;
         out
     });
     let _ = id;
